@@ -7,3 +7,8 @@ pub use request::PrefixesApi;
 
 //#[cfg(test)]
 //mod tests;
+
+/// Verification hooks (feature `verif-hooks`, add-only): see
+/// `verif_hooks_vribquery.rs`.
+#[cfg(feature = "verif-hooks")]
+pub use response::verif_hooks_vribquery;
